@@ -11,7 +11,7 @@ import (
 func init() {
 	register(&propCheck{
 		id:   "C14",
-		pkgs: []string{"internal/mod/mvs", "internal/mod/modrequirements", "internal/par"},
+		pkgs: []string{"internal/mod/mvs", "internal/mod/modrequirements", "internal/par", "internal/mod/semver", "mod/module"},
 		run:  checkC14,
 		about: "C14 (MVS minimal, sufficient, order/schedule independent): decides the schedule-independence mechanisms. (a) In the closures run concurrently by mvs.buildList and modrequirements.readModGraph every captured variable that is written is accessed only under a common mutex (lockset + capture analysis). " +
 			"(b) In the buildList closure every path to its exit passes through the loop that work.Add()s each element of the very slice handed to g.Require (upgrade included). " +
@@ -22,6 +22,8 @@ func init() {
 }
 
 func checkC14(c *Ctx) {
+	checkC14Order(c)
+	checkC14Identifiers(c)
 	c.checkLockPairing("locks.paired", "internal/par", "internal/mod/mvs", "internal/mod/modrequirements")
 	// ownership of the shared graph and work-set state
 	c.checkFieldWriters("ownership.field-writers", "internal/mod/mvs", "Graph", map[string][]string{
